@@ -187,11 +187,14 @@ pre_thread(struct emu *emu)
 
 	switch (ev->v) {
 		case 'C': /* create */
-			dbg("thread %d creates a new thread at cpu=%d with args=%x %x",
-					th->tid,
-					ev->payload->u32[0],
-					ev->payload->u32[1],
-					ev->payload->u32[2]);
+			/* Only informative, but don't read a payload that is not there */
+			if (ev->payload_size >= 12) {
+				dbg("thread %d creates a new thread at cpu=%d with args=%x %x",
+						th->tid,
+						ev->payload->u32[0],
+						ev->payload->u32[1],
+						ev->payload->u32[2]);
+			}
 
 			break;
 		case 'x':
